@@ -19,7 +19,8 @@ const CONTENTS: [&str; 8] = ["plain text", "two\nlines here", "  padded  ", "é 
 const REPLIES: [&str; 10] = ["OK", "ok", "Ok.", "oK.", "OK!", " OK", "Not OK: add a banana.", "okay", "", "Line one\nline \"two\""];
 
 pub fn generate(rng: &mut Rng, idx: usize, _tier: Tier) -> CaseOut {
-    let nblocks = rng.range(1, 5);
+    // every sixth case has more blocks than any plausible cap on concurrent requests
+    let nblocks = if idx % 6 == 5 { rng.range(9, 40) } else { rng.range(1, 5) };
     let lang = lang(["python", "js", "rust"][idx % 3]);
     let fault_kind = idx % 12; // 0..=7 one fault injected on one request; others: all requests answered
     let fault_at = rng.below(nblocks);
